@@ -37,6 +37,25 @@ const PRE_O5: &[&str] = &["o5 = {@iterator: || 5}"];
 const PRE_O6: &[&str] = &["o6 = {@call: || 1, @+: |o| self, @size: || 1e30}"];
 const PRE_O7: &[&str] = &["o7 = {@iterator: || self}"];
 const PRE_O8: &[&str] = &["reg = {}", "o8 = {@iterator: || reg.b}", "o9 = {@iterator: || reg.a}", "reg.a = o8", "reg.b = o9"];
+// cyclic values (`cy_…`) and very deep values (`dp_…`, built in a loop): a case that uses one of
+// them is tagged `val:cyclic-deep`, and for such a case a worker death (native stack overflow,
+// abort) is a VIOLATION, not a note
+const PRE_CY_L: &[&str] = &["cy_l = [1]", "cy_l.push cy_l"];
+const PRE_CY_M: &[&str] = &["cy_m = {a: 1}", "cy_m.insert 'self', cy_m"];
+const PRE_CY_2: &[&str] = &["cy_2l = [1]", "cy_2m = {l: cy_2l}", "cy_2l.push cy_2m"];
+const PRE_CY_T: &[&str] = &["cy_tl = [1]", "cy_t = (1, cy_tl)", "cy_tl.push cy_t"];
+const PRE_CY_F: &[&str] = &["cy_f = || cy_f"];
+const PRE_CY_FL: &[&str] = &["cy_fl = [1]", "cy_ff = || cy_fl", "cy_fl.push cy_ff"];
+const PRE_CY_MK: &[&str] = &["cy_mk = {}", "cy_kt = (1, cy_mk)", "cy_mk.insert 'k', cy_kt"];
+const PRE_DP_50: &[&str] = &["dp_50 = [0]", "for i in 0..50", "  dp_50 = [dp_50]"];
+const PRE_DP_85: &[&str] = &["dp_85 = [0]", "for i in 0..85", "  dp_85 = [dp_85]"];
+const PRE_DP_100: &[&str] = &["dp_100 = [0]", "for i in 0..100", "  dp_100 = [dp_100]"];
+const PRE_DP_300: &[&str] = &["dp_300 = [0]", "for i in 0..300", "  dp_300 = [dp_300]"];
+const PRE_DP_1000: &[&str] = &["dp_1000 = [0]", "for i in 0..1000", "  dp_1000 = [dp_1000]"];
+const PRE_DP_T100: &[&str] = &["dp_t100 = (0,)", "for i in 0..100", "  dp_t100 = (dp_t100, i)"];
+const PRE_DP_T1000: &[&str] = &["dp_t1000 = (0,)", "for i in 0..1000", "  dp_t1000 = (dp_t1000, i)"];
+const PRE_DP_M100: &[&str] = &["dp_m100 = {v: 0}", "for i in 0..100", "  dp_m100 = {v: dp_m100}"];
+const PRE_DP_M1000: &[&str] = &["dp_m1000 = {v: 0}", "for i in 0..1000", "  dp_m1000 = {v: dp_m1000}"];
 const PRE_LO: &[&str] = &["l = [3, 1, 2]", "lo = [{@<: |o| l.push(1), @==: |o| l.clear()}, {@<: |o| l.pop(), @==: |o| l.clear()}]"];
 
 const fn it(expr: &'static str, pre: &'static [&'static str], ty: Ty, reduced: bool) -> Item {
@@ -146,6 +165,23 @@ const OTHERS: &[Item] = &[
     it("o4", PRE_O4, Ty::Obj, false),
     it("o5", PRE_O5, Ty::Obj, false),
     it("o6", PRE_O6, Ty::Obj, false),
+    it("cy_l", PRE_CY_L, Ty::List, false),
+    it("cy_m", PRE_CY_M, Ty::Map, false),
+    it("cy_2l", PRE_CY_2, Ty::List, false),
+    it("cy_2m", PRE_CY_2, Ty::Map, false),
+    it("cy_t", PRE_CY_T, Ty::Tuple, false),
+    it("cy_f", PRE_CY_F, Ty::Func, false),
+    it("cy_fl", PRE_CY_FL, Ty::List, false),
+    it("cy_kt", PRE_CY_MK, Ty::Tuple, false),
+    it("dp_50", PRE_DP_50, Ty::List, false),
+    it("dp_85", PRE_DP_85, Ty::List, false),
+    it("dp_100", PRE_DP_100, Ty::List, false),
+    it("dp_300", PRE_DP_300, Ty::List, false),
+    it("dp_1000", PRE_DP_1000, Ty::List, false),
+    it("dp_t100", PRE_DP_T100, Ty::Tuple, false),
+    it("dp_t1000", PRE_DP_T1000, Ty::Tuple, false),
+    it("dp_m100", PRE_DP_M100, Ty::Map, false),
+    it("dp_m1000", PRE_DP_M1000, Ty::Map, false),
     // @iterator that returns the object itself / another object whose @iterator returns it
     // (make_iterator nesting limit, commit 47b1155)
     it("o7", PRE_O7, Ty::Obj, false),
@@ -155,6 +191,12 @@ const OTHERS: &[Item] = &[
 
 fn all_items() -> Vec<Item> {
     NUMS.iter().chain(OTHERS.iter()).copied().collect()
+}
+
+const CYCLIC_DEEP: &str = "val:cyclic-deep";
+
+fn uses_cyclic_or_deep(items: &[&Item]) -> bool {
+    items.iter().any(|i| i.expr.starts_with("cy_") || i.expr.starts_with("dp_"))
 }
 
 fn script_for(items: &[&Item], body: &str) -> String {
@@ -279,7 +321,7 @@ impl Sweep {
             kind: 'R',
             text: script_for(args, &body),
             group: if instance_form { "sweep-instance" } else { "sweep-module" },
-            apis: vec![format!("{}.{}", module, name)],
+            apis: if uses_cyclic_or_deep(args) { vec![format!("{}.{}", module, name), CYCLIC_DEEP.to_string()] } else { vec![format!("{}.{}", module, name)] },
         })
     }
 
@@ -394,7 +436,12 @@ fn program_cases(thorough: bool, rng: &mut Rng, f: &mut dyn FnMut(Case)) {
     let all: Vec<&Item> = all.iter().collect();
     let reduced: Vec<&Item> = all.iter().filter(|i| i.reduced).copied().collect();
     let nums: Vec<&Item> = all.iter().filter(|i| i.ty == Ty::Num).copied().collect();
-    let mk = |items: &[&Item], body: String, apis: Vec<String>| Case { kind: 'R', text: script_for(items, &body), group: "program", apis };
+    let mk = |items: &[&Item], body: String, mut apis: Vec<String>| {
+        if uses_cyclic_or_deep(items) {
+            apis.push(CYCLIC_DEEP.to_string());
+        }
+        Case { kind: 'R', text: script_for(items, &body), group: "program", apis }
+    };
     // 1. binary operators and compound assignment: numbers × numbers complete; whole pool² complete
     //    in thorough, reduced² in quick
     for a in &nums {
@@ -454,6 +501,46 @@ fn program_cases(thorough: bool, rng: &mut Rng, f: &mut dyn FnMut(Case)) {
             ("({a})({a})", "op:call"),
             ("x = [{a}, {a}]\nx.sort()\nx", "list.sort"),
             ("x = {{a}: 1}\nx", "op:map-key"),
+            // everything that traverses a value (cyclic / very deep values are in the pool)
+            ("({a}) == ({a})", "op:=="),
+            ("x = {a}\ny = koto.deep_copy? x\nx != y", "op:!="),
+            ("({a}) < ({a})", "op:<"),
+            ("koto.hash({a})", "koto.hash"),
+            ("debug {a}", "op:debug"),
+            ("'{{a}} {{a}:?} {{a}:>40.3}'", "op:interpolate"),
+            ("string.format('{} {:?}', {a}, {a})", "string.format"),
+            ("copy {a}", "koto.copy"),
+            ("koto.deep_copy {a}", "koto.deep_copy"),
+            ("[{a}, 1].contains({a})", "list.contains"),
+            ("({a}, 1).contains({a})", "tuple.contains"),
+            ("x = [{a}, {a}, 1]\nx.sort()\nx", "list.sort"),
+            ("({a}, {a}).sort_copy()", "tuple.sort_copy"),
+            ("x = [{a}, {a}]\nx.sort |v| v\nx", "list.sort"),
+            ("[{a}, {a}].min()", "iterator.min"),
+            ("[{a}, {a}].max()", "iterator.max"),
+            ("[{a}, {a}].min_max()", "iterator.min_max"),
+            ("({a}).to_list()", "iterator.to_list"),
+            ("({a}).to_tuple()", "iterator.to_tuple"),
+            ("[{a}, [{a}]].flatten().to_list()", "iterator.flatten"),
+            ("({a}).flatten().to_tuple()", "iterator.flatten"),
+            ("[{a}].to_string()", "iterator.to_string"),
+            ("({a}).iter().to_map()", "iterator.to_map"),
+            ("json.to_string {a}", "json.to_string"),
+            ("yaml.to_string {a}", "yaml.to_string"),
+            ("toml.to_string {a}", "toml.to_string"),
+            ("json.to_string {v: {a}}", "json.to_string"),
+            ("toml.to_string {v: {a}}", "toml.to_string"),
+            ("test.assert_eq {a}, {a}", "test.assert_eq"),
+            ("test.assert_ne {a}, {a}", "test.assert_ne"),
+            ("test.assert_near {a}, {a}", "test.assert_near"),
+            ("m = {}\nm.insert(({a}, 1), 1)\nm.get(({a}, 1))", "map.insert"),
+            ("x = ({a}, {a})\nmatch x\n  (p, q) if p == q then 1\n  else 2", "op:match"),
+            ("x = [{a}]\nx.retain {a}\nx", "list.retain"),
+            ("({a}, 1) == ({a}, 1)", "op:=="),
+            ("[{a}] in [[{a}]]", "op:in"),
+            ("throw {a}", "op:throw"),
+            ("f = |x: List| x\nf {a}", "op:typecheck"),
+            ("export cyc = {a}\nkoto.exports()", "koto.exports"),
             // map keys from the whole pool (NaN, -0.0, ranges, …) through update / insert / get / remove
             ("m = {}\nm.update({a}, |x| x)\nm", "map.update"),
             ("m = {}\nm.update({a}, 0, |x| x + 1)\nm.update({a}, 0, |x| x + 1)\nsize m", "map.update"),
@@ -517,6 +604,9 @@ fn program_cases(thorough: bool, rng: &mut Rng, f: &mut dyn FnMut(Case)) {
             2 => format!("try\n  {}\ncatch err\n  '{{err}}'", e),
             _ => e,
         };
+        if uses_cyclic_or_deep(&used) {
+            apis.push(CYCLIC_DEEP.to_string());
+        }
         f(Case { kind: 'R', text: script_for(&used, &body), group: "program-random", apis });
     }
 }
